@@ -432,11 +432,46 @@ def r22e(ctx, run):
         run.ok(lexf.site(), "lex evaluated on %d scanner streams: starts cover 0..len, a token begins at every item, every byte lies in a token of its item's kind" % n)
 
 
+def r22f(ctx, run):
+    """no item of the scanner's stream is dropped: every path through an iteration of lex's driver loop hands the item to the token sink (calls `handler`
+    or passes it to a sub-lexer) - whatever the item's text is.  An iteration that `continue`s without a token leaves the item's bytes to a neighbour
+    (or to nobody, at offset 0): the token ranges no longer tile the input.  (R22.e runs the loop on model streams; a guard on the item's TEXT is
+    never taken there, so this clause looks at the paths.)"""
+    import paths
+    fn = ctx.syn.fn("lex", "lexer/src/lib.rs")
+    loops = [n for n in walk(fn.body) if n.get("k") == "while" and "next()" in canon(n["c"])]
+    if len(loops) != 1:
+        raise LookupError("lex's driver loop: %d" % len(loops))
+    loop = loops[0]
+    sinks = set()
+    for st in walk(loop["b"]):
+        if st.get("k") == "local" and st["p"].get("k") == "p_ident" and st.get("init") is not None and st["init"].get("k") == "closure" and any(
+                x.get("k") == "mcall" and x["m"] == "push" for x in walk(st["init"])):
+            sinks.add(st["p"]["n"])
+    if not sinks:
+        raise LookupError("the token sink closure of lex's driver loop")
+
+    def step(node, st):
+        if node.get("k") == "call":
+            callee = canon(node["f"])
+            if callee in sinks or any(a.get("k") == "path" and a["p"] in sinks for a in node["a"]):
+                return True
+        return st
+    fall, exits = paths.run(loop["b"], False, step)
+    bad = [("end of the iteration", None)] if False in fall else []
+    bad += [(k, l) for k, l, st in exits if k in ("continue", "break") and st is False]
+    arms = sum(len(m["arms"]) for m in walk(loop["b"]) if m.get("k") == "match")
+    run.check(not bad, fn.site(loop["ln"]), "every path through an iteration of lex's loop emits a token (%d match arms)" % arms, "lex", "item-dropped", fn.file, loop["ln"],
+              "an iteration of lex's driver loop can end (%s) without handing the scanner's item to the token sink: the bytes of that item belong to no token of their own - the "
+              "previous token swallows them, or nothing covers them at the start of the input" % ", ".join(sorted({b[0] for b in bad})))
+
+
 def rules(ctx):
     return [
         Rule("R22.a", "the transmute LexerTokenKind -> TokenKind is an identity on names/discriminants; internal kinds handled first; u8 raw conversions fit", 8, r22a),
         Rule("R22.b", "Tokens::new is the only constructor and states its length invariant; range(i) = starts[i]..starts[i+1]", 3, r22b),
         Rule("R22.e", "lex's driver loop evaluated on model scanner streams: coverage 0..len, a token begins at every item, every byte in a token of its item's kind", 1, r22e),
+        Rule("R22.f", "no item of the scanner's stream is dropped: every path through an iteration of the driver loop reaches the token sink", 1, r22f),
         Rule("R22.d", "literal sub-lexers evaluated on all literals up to 5 characters (1- and 2-byte characters, escapes, unterminated) with a symbolic offset = the literal token grammar", 2, r22d),
         Rule("R22.c", "sub-lexers emit only the running position, advanced by len_utf8 once per character", 15, r22c),
     ]
